@@ -535,6 +535,7 @@ def contracts():
     cs += c14_linesearch.contracts()
     cs += c14_roundtrip.contracts()
     cs += c14_matrix.contracts()
+    cs += c14_step.contracts()
     if os.environ.get('VERIF_C14_PARKED'):  # experiments only: the parked contracts fail on the unchanged tree (candidate defects)
         cs += PARKED
     return cs
